@@ -1136,7 +1136,8 @@ func FromV3Operation(doc3 *openapi3.T, operation *openapi3.Operation) (*openapi2
 	if v := operation.RequestBody; v != nil {
 		// Find parameter name that we can use for the body
 		name := findNameForRequestBody(operation)
-		if name == "" {
+		if name == "" && v.Ref == "" && (v.Value == nil || v.Value.Extensions["x-originalParamName"] == nil) {
+			// the name is needed only for an inline request body that does not carry its original name
 			return nil, errors.New("could not find a name for request body")
 		}
 
